@@ -35,6 +35,13 @@ def codecStep (q : List Bytes) (toks : List String) : List Bytes × String :=
       | .ok items sum _ => (q, s!"ok n={items.length} sum={sum} items={hexList items}")
       | .err before => (q, s!"err n={before.length}")
     | _, _ => (q, "bad-op")
+  | ["pwrite", a, b, c] =>
+    -- W writers of one instance write W files concurrently and W readers read them back concurrently.  The model
+    -- has no shared state between files, so by `C19_file_roundtrip` (applied to each writer's own item list) every
+    -- file reads back as written with the writer's checksum: the answer is `ok` for every well-formed request.
+    match natArg [a, b, c] "w", natArg [a, b, c] "n", natArg [a, b, c] "seed" with
+    | some w, some n, some _ => if w < 1 || w > 16 || n > 100000 then (q, "bad-op") else (q, "ok")
+    | _, _, _ => (q, "bad-op")
   | ["kv", k, v] =>
     match hexToBytes k, hexToBytes v with
     | some kb, some vb =>
